@@ -29,11 +29,38 @@ type Own struct {
 	TargetID *int64
 	Target   *Tgt    `gorm:"foreignKey:TargetID"`
 	One      *One    `gorm:"foreignKey:OwnID"`
-	Many     []Many  `gorm:"foreignKey:OwnID"`
+	Many     []Many  // by gorm's naming convention: Many.OwnID
 	Notes    []*Note `gorm:"polymorphic:Owner;polymorphicValue:xp"`
 	Badge    *Badge  `gorm:"polymorphic:Owner;polymorphicValue:xp"`
 	Tags     []Tag   `gorm:"many2many:own_tags"`
 	PTags    []*PTag `gorm:"many2many:own_ptags"`
+	// relation fields held BY VALUE
+	OneV      OneV `gorm:"foreignKey:OwnID"`
+	TargetVID *int64
+	TargetV   TgtV `gorm:"foreignKey:TargetVID"`
+	// self-referential many2many, many2many with every key named, polymorphic with renamed columns
+	Friends  []*Own    `gorm:"many2many:own_friends"`
+	XTags    []XTag    `gorm:"many2many:own_xtags;foreignKey:ID;joinForeignKey:OwnerRef;references:ID;joinReferences:TagRef"`
+	Stickers []Sticker `gorm:"polymorphic:Owner;polymorphicValue:xp;polymorphicType:Kind;polymorphicId:OID"`
+}
+type OneV struct {
+	ID    int64 `gorm:"primaryKey"`
+	Name  string
+	OwnID *int64
+}
+type TgtV struct {
+	ID   int64 `gorm:"primaryKey"`
+	Name string
+}
+type XTag struct {
+	ID   uint `gorm:"primaryKey"`
+	Name string
+}
+type Sticker struct {
+	ID   int64 `gorm:"primaryKey"`
+	Name string
+	OID  *int64
+	Kind string
 }
 type One struct {
 	ID    int64 `gorm:"primaryKey"`
@@ -62,7 +89,7 @@ type Tgt struct {
 	Name string
 }
 type Tag struct {
-	ID   int64 `gorm:"primaryKey"`
+	ID   uint `gorm:"primaryKey"`
 	Name string
 }
 type PTag struct {
@@ -77,6 +104,7 @@ type RelD struct {
 	Table  string // target (child) table
 	FK     string // has-kinds: fk column on the child table; belongs: fk column on owns
 	Poly   bool
+	TypeC  string // polymorphic: type column ("" = owner_type)
 	JTable string
 	JOwner string
 	JTgt   string
@@ -84,15 +112,44 @@ type RelD struct {
 }
 
 var rels = map[string]RelD{
-	"One":    {Name: "One", Kind: "KHasOne", Table: "ones", FK: "own_id", Elem: reflect.TypeOf(One{})},
-	"Many":   {Name: "Many", Kind: "KHasMany", Table: "manies", FK: "own_id", Elem: reflect.TypeOf(Many{})},
-	"Notes":  {Name: "Notes", Kind: "KHasMany", Table: "notes", FK: "owner_id", Poly: true, Elem: reflect.TypeOf(Note{})},
-	"Badge":  {Name: "Badge", Kind: "KHasOne", Table: "badges", FK: "owner_id", Poly: true, Elem: reflect.TypeOf(Badge{})},
-	"Target": {Name: "Target", Kind: "KBelongs", Table: "tgts", FK: "target_id", Elem: reflect.TypeOf(Tgt{})},
-	"Tags":   {Name: "Tags", Kind: "KM2M", Table: "tags", JTable: "own_tags", JOwner: "own_id", JTgt: "tag_id", Elem: reflect.TypeOf(Tag{})},
-	"PTags":  {Name: "PTags", Kind: "KM2M", Table: "p_tags", JTable: "own_ptags", JOwner: "own_id", JTgt: "p_tag_id", Elem: reflect.TypeOf(PTag{})},
+	"One":      {Name: "One", Kind: "KHasOne", Table: "ones", FK: "own_id", Elem: reflect.TypeOf(One{})},
+	"Many":     {Name: "Many", Kind: "KHasMany", Table: "manies", FK: "own_id", Elem: reflect.TypeOf(Many{})},
+	"Notes":    {Name: "Notes", Kind: "KHasMany", Table: "notes", FK: "owner_id", Poly: true, Elem: reflect.TypeOf(Note{})},
+	"Badge":    {Name: "Badge", Kind: "KHasOne", Table: "badges", FK: "owner_id", Poly: true, Elem: reflect.TypeOf(Badge{})},
+	"Target":   {Name: "Target", Kind: "KBelongs", Table: "tgts", FK: "target_id", Elem: reflect.TypeOf(Tgt{})},
+	"Tags":     {Name: "Tags", Kind: "KM2M", Table: "tags", JTable: "own_tags", JOwner: "own_id", JTgt: "tag_id", Elem: reflect.TypeOf(Tag{})},
+	"PTags":    {Name: "PTags", Kind: "KM2M", Table: "p_tags", JTable: "own_ptags", JOwner: "own_id", JTgt: "p_tag_id", Elem: reflect.TypeOf(PTag{})},
+	"OneV":     {Name: "OneV", Kind: "KHasOne", Table: "one_vs", FK: "own_id", Elem: reflect.TypeOf(OneV{})},
+	"TargetV":  {Name: "TargetV", Kind: "KBelongs", Table: "tgt_vs", FK: "target_v_id", Elem: reflect.TypeOf(TgtV{})},
+	"Friends":  {Name: "Friends", Kind: "KM2M", Table: "owns", JTable: "own_friends", JOwner: "own_id", JTgt: "friend_id", Elem: reflect.TypeOf(Own{})},
+	"XTags":    {Name: "XTags", Kind: "KM2M", Table: "x_tags", JTable: "own_xtags", JOwner: "owner_ref", JTgt: "tag_ref", Elem: reflect.TypeOf(XTag{})},
+	"Stickers": {Name: "Stickers", Kind: "KHasMany", Table: "stickers", FK: "o_id", Poly: true, TypeC: "kind", Elem: reflect.TypeOf(Sticker{})},
 }
-var relNames = []string{"One", "Many", "Notes", "Notes", "Badge", "Target", "Tags", "PTags"}
+var relNames = []string{"One", "Many", "Notes", "Notes", "Badge", "Target", "Tags", "PTags", "OneV", "TargetV", "Friends", "XTags", "Stickers"}
+
+func (r RelD) typeCol() string {
+	if r.TypeC != "" {
+		return r.TypeC
+	}
+	return "owner_type"
+}
+
+// primary keys are int64 or uint fields
+func getID(v reflect.Value) int64 {
+	f := reflect.Indirect(v).FieldByName("ID")
+	if f.Kind() == reflect.Uint {
+		return int64(f.Uint())
+	}
+	return f.Int()
+}
+func setID(v reflect.Value, id int64) {
+	f := reflect.Indirect(v).FieldByName("ID")
+	if f.Kind() == reflect.Uint {
+		f.SetUint(uint64(id))
+	} else {
+		f.SetInt(id)
+	}
+}
 
 const polyOther = 1000 // owner ids of rows with another owner_type are shifted by this
 
@@ -117,6 +174,7 @@ type Link struct {
 type Input struct {
 	Rel        string  `json:"rel"`
 	Single     bool    `json:"single"`                // db.Model(&owner) instead of db.Model(&owners)
+	FullSave   bool    `json:"full_save,omitempty"`   // Session{FullSaveAssociations: true}: targets are upserted with ALL their columns
 	SameHandle bool    `json:"same_handle,omitempty"` // ONE *Association (db.Model(..).Association(rel)) is kept and used for every operation, Count and Find of the history
 	Owners     []int64 `json:"owners"`                // handle
 	Outside    []int64 `json:"outside"`               // other owner rows
@@ -171,7 +229,7 @@ func (e *Env) linksOf(r RelD, owner int64) []int64 {
 		return sorted(e.ints("SELECT "+r.JTgt+" FROM "+r.JTable+" WHERE "+r.JOwner+" = ?", owner))
 	}
 	if r.Poly {
-		return sorted(e.ints("SELECT id FROM "+r.Table+" WHERE "+r.FK+" = ? AND owner_type = 'xp'", owner))
+		return sorted(e.ints("SELECT id FROM "+r.Table+" WHERE "+r.FK+" = ? AND "+r.typeCol()+" = 'xp'", owner))
 	}
 	return sorted(e.ints("SELECT id FROM "+r.Table+" WHERE "+r.FK+" = ?", owner))
 }
@@ -214,7 +272,7 @@ func (e *Env) othersOf(r RelD, handle []int64) [][2]int64 {
 	default:
 		q := "SELECT id, " + r.FK + ", 'xp' FROM " + r.Table + " WHERE " + r.FK + " IS NOT NULL ORDER BY id"
 		if r.Poly {
-			q = "SELECT id, " + r.FK + ", owner_type FROM " + r.Table + " WHERE " + r.FK + " IS NOT NULL ORDER BY id"
+			q = "SELECT id, " + r.FK + ", " + r.typeCol() + " FROM " + r.Table + " WHERE " + r.FK + " IS NOT NULL ORDER BY id"
 		}
 		rows, err := e.sql.Query(q)
 		lib.Must(err)
@@ -239,12 +297,16 @@ func fieldIDs(owner reflect.Value, name string) []int64 {
 	switch fv.Kind() {
 	case reflect.Ptr:
 		// Clear / Delete leave a pointer to a zero-value struct: no record
-		if !fv.IsNil() && fv.Elem().FieldByName("ID").Int() != 0 {
-			out = append(out, fv.Elem().FieldByName("ID").Int())
+		if !fv.IsNil() && getID(fv) != 0 {
+			out = append(out, getID(fv))
+		}
+	case reflect.Struct: // relation field held by value: a zero struct holds no record
+		if getID(fv) != 0 {
+			out = append(out, getID(fv))
 		}
 	case reflect.Slice:
 		for i := 0; i < fv.Len(); i++ {
-			out = append(out, reflect.Indirect(fv.Index(i)).FieldByName("ID").Int())
+			out = append(out, getID(fv.Index(i)))
 		}
 	}
 	return out
@@ -264,7 +326,7 @@ type Result struct {
 }
 
 func (e *Env) reset() {
-	for _, t := range []string{"owns", "ones", "manies", "notes", "badges", "tgts", "tags", "p_tags", "own_tags", "own_ptags"} {
+	for _, t := range []string{"one_vs", "tgt_vs", "x_tags", "stickers", "own_friends", "own_xtags", "owns", "ones", "manies", "notes", "badges", "tgts", "tags", "p_tags", "own_tags", "own_ptags"} {
 		lib.Must(e.db.Exec("DELETE FROM " + t).Error)
 	}
 	e.db.Exec("DELETE FROM sqlite_sequence")
@@ -280,7 +342,7 @@ func (e *Env) run(in Input) Result {
 	for _, t := range in.Targets {
 		switch {
 		case r.Poly:
-			lib.Must(db.Exec("INSERT INTO "+r.Table+" (id, name, owner_type) VALUES (?, ?, 'xp')", t, fmt.Sprint("t", t)).Error)
+			lib.Must(db.Exec("INSERT INTO "+r.Table+" (id, name, "+r.typeCol()+") VALUES (?, ?, 'xp')", t, fmt.Sprint("t", t)).Error)
 		default:
 			lib.Must(db.Exec("INSERT INTO "+r.Table+" (id, name) VALUES (?, ?)", t, fmt.Sprint("t", t)).Error)
 		}
@@ -293,7 +355,7 @@ func (e *Env) run(in Input) Result {
 			lib.Must(db.Exec("INSERT INTO "+r.JTable+" ("+r.JOwner+", "+r.JTgt+") VALUES (?, ?)", l.Owner, l.Target).Error)
 		default:
 			if r.Poly && l.Other {
-				lib.Must(db.Exec("UPDATE "+r.Table+" SET "+r.FK+" = ?, owner_type = 'other' WHERE id = ?", l.Owner, l.Target).Error)
+				lib.Must(db.Exec("UPDATE "+r.Table+" SET "+r.FK+" = ?, "+r.typeCol()+" = 'other' WHERE id = ?", l.Owner, l.Target).Error)
 			} else {
 				lib.Must(db.Exec("UPDATE "+r.Table+" SET "+r.FK+" = ? WHERE id = ?", l.Owner, l.Target).Error)
 			}
@@ -327,7 +389,7 @@ func (e *Env) run(in Input) Result {
 	default:
 		q := "SELECT id, " + r.FK + ", '' FROM " + r.Table + " ORDER BY id"
 		if r.Poly {
-			q = "SELECT id, " + r.FK + ", owner_type FROM " + r.Table + " ORDER BY id"
+			q = "SELECT id, " + r.FK + ", " + r.typeCol() + " FROM " + r.Table + " ORDER BY id"
 		}
 		rows, err := e.sql.Query(q)
 		lib.Must(err)
@@ -359,12 +421,16 @@ func (e *Env) run(in Input) Result {
 	// fresh-handle mode: every call goes through its own db.Model(..).Association(rel);
 	// same-handle mode: one handle is created once and reused, as users who keep the handle do
 	var kept *gorm.Association
+	base := db
+	if in.FullSave {
+		base = db.Session(&gorm.Session{FullSaveAssociations: true})
+	}
 	handle := func() *gorm.Association {
 		if !in.SameHandle {
-			return db.Model(model()).Association(r.Name)
+			return base.Model(model()).Association(r.Name)
 		}
 		if kept == nil {
-			kept = db.Model(model()).Association(r.Name)
+			kept = base.Model(model()).Association(r.Name)
 		}
 		return kept
 	}
@@ -384,7 +450,7 @@ func (e *Env) run(in Input) Result {
 		ferr := handle().Find(out.Interface())
 		s.Find = []int64{}
 		for i := 0; i < out.Elem().Len(); i++ {
-			s.Find = append(s.Find, out.Elem().Index(i).FieldByName("ID").Int())
+			s.Find = append(s.Find, getID(out.Elem().Index(i)))
 		}
 		s.Find = sorted(s.Find)
 		if err != nil {
@@ -416,7 +482,7 @@ func (e *Env) run(in Input) Result {
 					p, ok := same[id]
 					if !ok || !op.SamePtr || id == 0 {
 						p = reflect.New(r.Elem)
-						p.Elem().FieldByName("ID").SetInt(id)
+						setID(p, id)
 						p.Elem().FieldByName("Name").SetString(fmt.Sprint("v", id))
 						same[id] = p
 					}
@@ -426,7 +492,7 @@ func (e *Env) run(in Input) Result {
 				objs = append(objs, os)
 				switch {
 				case r.Kind == "KHasOne" || r.Kind == "KBelongs":
-					if len(os) == 1 {
+					if len(os) == 1 && !op.AsSlice {
 						args = append(args, os[0].Interface())
 					} else {
 						args = append(args, sl.Interface())
@@ -471,7 +537,7 @@ func (e *Env) run(in Input) Result {
 				p, ok := sameDel[id]
 				if !ok || !op.SamePtr {
 					p = reflect.New(r.Elem)
-					p.Elem().FieldByName("ID").SetInt(id)
+					setID(p, id)
 					sameDel[id] = p
 				}
 				delSlice = reflect.Append(delSlice, p)
@@ -488,7 +554,7 @@ func (e *Env) run(in Input) Result {
 		for vi, os := range objs {
 			ids := []int64{}
 			for oi, o := range os {
-				id := o.Elem().FieldByName("ID").Int()
+				id := getID(o)
 				ids = append(ids, id)
 				if op.Vals[vi][oi] == 0 && id != 0 {
 					created = append(created, id)
@@ -705,7 +771,7 @@ func genInput(r *lib.Rng, maxOps int, edge bool) Input {
 
 func shapeOf(in Input) string {
 	var sb strings.Builder
-	fmt.Fprintf(&sb, "%s|same=%v|single=%v|o%d|out%d|t%d|l%d|", in.Rel, in.SameHandle, in.Single, len(in.Owners), len(in.Outside), len(in.Targets), len(in.Links))
+	fmt.Fprintf(&sb, "%s|full=%v|same=%v|single=%v|o%d|out%d|t%d|l%d|", in.Rel, in.FullSave, in.SameHandle, in.Single, len(in.Owners), len(in.Outside), len(in.Targets), len(in.Links))
 	for _, o := range in.Ops {
 		u := ""
 		if o.Unscoped {
@@ -861,7 +927,7 @@ func main() {
 	a := lib.ParseArgs()
 	db, _, sqlDB, err := gdb.Open(gdb.Opt{})
 	lib.Must(err)
-	lib.Must(db.AutoMigrate(&Tgt{}, &Tag{}, &PTag{}, &Own{}, &One{}, &Many{}, &Note{}, &Badge{}))
+	lib.Must(db.AutoMigrate(&Tgt{}, &Tag{}, &PTag{}, &TgtV{}, &XTag{}, &Own{}, &One{}, &Many{}, &Note{}, &Badge{}, &OneV{}, &Sticker{}))
 	env := &Env{db: db, sql: sqlDB}
 	out := lib.NewOut(a.Out, "C12")
 	out.PerFile = 200
@@ -930,6 +996,7 @@ func main() {
 			out.Count("regenerated_known_shape", sigOther(in))
 		}
 		in.SameHandle = same
+		in.FullSave = r.Chance(1, 6)
 		kind := "main"
 		if edge {
 			kind = "edge"
@@ -944,6 +1011,6 @@ func main() {
 		out.Count("known_shape", sig(in))
 		add(kind, in)
 	}
-	out.Extra["rule"] = "cases = histories of 1..8 (thorough 12) operations Append/Replace/Delete/Clear, each scoped or Unscoped, on one relation of kind {has one, has many, polymorphic has many and polymorphic has one (next to rows of ANOTHER owner type that carry the same owner ids, and that may be moved into the relation or named in its Delete), belongs to, many2many with struct elements, many2many with pointer elements}, through db.Model(&owner) or db.Model(&owners) (a fresh *Association per call, or - one history in five - ONE handle kept and reused for every operation, Count and Find) with 1..3 owners that start without links, next to 0..2 outside owners with existing links; every operation also with no target at all (Append(), Replace(), Delete()); targets are new records, existing unlinked rows, rows linked to the same owner, rows linked to outside owners, and duplicates (equal copies or THE SAME object repeated inside a slice argument and followed by further targets; variadic or one slice argument); Count(), Find(), raw foreign keys / join rows of the handle AND of every other owner / owner type, the target table and the in-memory fields are read after every operation; domain: for has one / has many / polymorphic a target is never given to two different owners of one handle; distinct = distinct (relation, handle, table sizes, operation sequence with sizes) shapes; non-trivial = the stored links change at least twice"
+	out.Extra["rule"] = "cases = histories of 1..8 (thorough 12) operations Append/Replace/Delete/Clear, each scoped or Unscoped, on one relation of kind {has one (pointer field / field by value), has many (by tags / by naming convention), polymorphic has many and polymorphic has one (next to rows of ANOTHER owner type that carry the same owner ids, and that may be moved into the relation or named in its Delete), belongs to, belongs to by value, many2many with struct elements / pointer elements / every key named by tags / self-referential, polymorphic with renamed type and id columns}, optionally with Session{FullSaveAssociations: true}, through db.Model(&owner) or db.Model(&owners) (a fresh *Association per call, or - one history in five - ONE handle kept and reused for every operation, Count and Find) with 1..3 owners that start without links, next to 0..2 outside owners with existing links; every operation also with no target at all (Append(), Replace(), Delete()); targets are new records, existing unlinked rows, rows linked to the same owner, rows linked to outside owners, and duplicates (equal copies or THE SAME object repeated inside a slice argument and followed by further targets; variadic or one slice argument); Count(), Find(), raw foreign keys / join rows of the handle AND of every other owner / owner type, the target table and the in-memory fields are read after every operation; domain: for has one / has many / polymorphic a target is never given to two different owners of one handle; distinct = distinct (relation, handle, table sizes, operation sequence with sizes) shapes; non-trivial = the stored links change at least twice"
 	lib.Must(out.Flush())
 }
